@@ -101,4 +101,23 @@ CLAIMS = {
         'design_ref': 'DESIGN.md 4.3, 4.1, 5 (C10)',
         'note': TRUST,
     },
+    'C01': {
+        'technique': 'static analysis: tensor-leg typing with factorisation contracts (gauge invariance), affine sweep typing, sign domain + monomial factor algebra per path',
+        'text': 'Decides, for all shapes and all L: each local QR step preserves the two-site product given Q@R == M (leg '
+                'domain), every bond is re-factorised exactly once in order with matching tensor / label slots, the '
+                'quantum numbers handed to the block QR are those of the merged legs, and on every path the returned '
+                'factor is >= 0 and factor x (scale applied to the boundary tensor) equals the trailing 1x1 factor - so '
+                'the sign-flip branch no test reaches is covered.  Isometry and numerical equality are not decided.',
+        'design_ref': 'DESIGN.md 4.3, 4.4, 4.2, 5 (C01)',
+        'note': TRUST + '; assumes the QR contract Q@R == M (C11) and that the trailing factor is real',
+    },
+    'C13': {
+        'technique': 'static analysis: direction-pairing and provenance rules, monomial factor algebra, affine sweep typing, leg-domain gauge invariance with singular-value exponents',
+        'text': 'Decides the structural clauses: compression canonicalises in the opposite direction first and returns that '
+                'norm; the returned scale is |T| and the absorbed phase times it equals the trailing factor; both SVD '
+                'steps preserve the two-site product with singular values entering with total exponent 1; TT-SVD '
+                'truncates u, s, v and the bond label with one index set.  The error bounds themselves are not decided.',
+        'design_ref': 'DESIGN.md 4.2-4.4, 5 (C13)',
+        'note': TRUST + '; assumes the SVD contract U.diag(s).V == M (C12)',
+    },
 }
